@@ -17,7 +17,7 @@ RULE = ('timelines of 1-5 events (thorough: 1-6) over times {0,.5,1,1.5,2,2.5,3,
         'and without path overrides), other process present or not; the first 2000 quick cases enumerate '
         'all permutations of fixed small timelines; non-trivial = >=2 events and (unsorted listing or '
         'duplicate time or >=2 events due in one tick); distinct = distinct case spec')
-PLAN = {'quick': {'n': 6000, 'min_cases': 800}, 'thorough': {'n': 150000, 'min_cases': 15000}}
+PLAN = {'quick': {'n': 15000, 'min_cases': 800}, 'thorough': {'n': 150000, 'min_cases': 15000}}
 REQUIRED_ORACLES = ['trajectory']
 ANCHORS = ['vivarium.processes.timeline:TimelineProcess.initialize_timeline',
            'vivarium.processes.timeline:TimelineProcess.next_update',
